@@ -14,6 +14,18 @@ short-read lengths, per-block errors); issued request sequence and result are co
 run on the same schedule.  Plus end-to-end get/put/copy/open through a real in-process server that answers
 short, late and out of order, compared with the model run on the observed reply log.
 Oracle: destination bytes == source bytes on normal return, or an exception; never silent corruption.
+
+After the model/code audit: the environment of a write is modelled in full (`WEvX`: a block may be answered with an
+FX_EOF status, the kernel may accept only a part of it; `cev` for the copier's destination), `read()` to the end of
+the file is modelled with its path choice (`fread`), consecutive writes of a file object tile the file in BYTES
+(text mode: the encoded form).  Three repairs are detected by the translator (Gen.C12.writeEofIsError /
+serverWritesAll / readToEndUsesReader); write_correct_live, copy_correct_any_status, sparse_copy_exact_any_status and
+read_to_end_correct need them, the witnesses old_writer_eof_status_truncates / old_server_short_write_acknowledged /
+old_copier_eof_status_truncates / old_read_to_end_short_reply_final keep the behaviour before the repairs.  The
+oracle drives a real server whose destination files cannot grow past a limit (short write() of an unbuffered file),
+that answers a WRITE with FX_EOF, that short-reads below the block size, whose attributes carry no size, and text
+mode files (utf-8 non-ASCII, utf-16, utf-32) with consecutive write()/tell()/relative seek().  A short server-side
+write inside get/put/copy (copier) has no counterpart in the copier model's replies: oracle only.
 """
 
 from __future__ import annotations
@@ -38,7 +50,11 @@ MANIFEST = {
             'before its announced size (copy_correct_or_error, copy_short_source_raises; no hypothesis on c), any '
             'failed block makes the operation raise (error_propagates), sparse ranges land at their own offsets '
             '(sparse_holes) and a sparse copy is exact for every hole layout (sparse_copy_exact), the file '
-            'object position is the POSIX one (fileobj_offsets). The model is tied to the '
+            'object position is the POSIX one (fileobj_offsets) and consecutive writes tile the file in bytes of the '
+            'encoded data (consecutive_writes_tile); a write returns only with the file = pwrite(data) whatever status '
+            '(FX_EOF included) any block is answered with and however little of a block the kernel accepts '
+            '(write_correct_live), copies likewise (copy_correct_any_status, sparse_copy_exact_any_status), read() to the '
+            'end of the file returns everything up to EOF under short replies (read_to_end_correct). The model is tied to the '
             'code by a translator for the integer expressions (gen_* theorems re-proved every run) and by a '
             'differential run of the real reader/writer/copier/file object against harness-controlled futures; the '
             'property itself is evaluated on the real code incl. real sparse files and an out-of-order, '
@@ -55,7 +71,9 @@ DRIVER = 'Drivers/C12.lean'
 TRUSTED = [
     'asyncio.wait(FIRST_COMPLETED) returns a non-empty set of finished tasks; the model allows every split of '
     'completions into batches, the correspondence realises random ones',
-    'a write is taken to be applied by the server when its task completes (outstanding writes are disjoint)',
+    'a write answered FX_OK is applied whole by the server when its task completes (outstanding writes are disjoint); '
+    'that the stock SFTPServer.write does write the whole block or raise is checked by the translator '
+    '(Gen.C12.serverWritesAll, gen_writeLoop) and by the oracle with a destination that cannot grow',
     'os.SEEK_DATA/SEEK_HOLE of the kernel and the server-side copy-data loop are exercised by the oracle only',
 ]
 ASSUMPTIONS = [
@@ -64,10 +82,19 @@ ASSUMPTIONS = [
     'the server is truthful: DATA replies carry bytes of the file at the requested offset, at most as many as '
     'requested (an empty reply is allowed: the reader raises on it)',
     'the source content does not change during a transfer (except where the oracle truncates it on purpose)',
+    'the size announced in the source\'s attributes is its length (`total`, `_end()`); when the attributes carry no size '
+    'or size 0 for a file with content the statement fails: known findings source-size-unannounced:*',
 ]
 
 SIG_TRAILING_HOLE = 'sparse-copy:trailing-hole-dropped'
 SIG_ZERO_READ = 'sftp-read:zero-length-data-reply-silent-hole'
+SIG_EOF_ON_WRITE = 'eof-status-on-write-taken-for-end-of-file'
+SIG_READ_TO_END = 'read-to-end:short-reply-to-single-request-final'
+SIG_SHORT_WRITE = 'server-short-write-acknowledged'
+SIG_NO_SIZE_COPY = 'source-size-unannounced:copied-as-empty'
+SIG_NO_SIZE_READ = 'source-size-unannounced:read-to-end-empty'
+SIG_REMOTE_COPY_SHORT = 'short-source-not-reported:remote-copy'
+SIG_TEXT_POS = 'fileobj-position:text-write-not-advanced-by-encoded-bytes'
 
 BLOCKS = [1, 2, 7, 16384]
 MAXREQS = [1, 2, 3, 128]
@@ -85,9 +112,11 @@ def flags() -> Dict[str, int]:
     if not _FLAGS:
         try:
             info = _tr.generate()[1]
-            _FLAGS.update(strict=int(info['reader_rejects_empty']), ext=int(info['copier_extends_sparse']))
+            _FLAGS.update(strict=int(info['reader_rejects_empty']), ext=int(info['copier_extends_sparse']),
+                          eof=int(info.get('write_eof_is_error', False)), wall=int(info.get('server_writes_all', False)),
+                          ter=int(info.get('read_to_end_uses_reader', False)))
         except Exception:
-            _FLAGS.update(strict=0, ext=0)
+            _FLAGS.update(strict=0, ext=0, eof=0, wall=0, ter=0)
     return _FLAGS
 
 
@@ -176,13 +205,13 @@ class FakeHandler:
     async def write(self, handle: bytes, offset: int, data: bytes) -> int:
         if offset < 0:
             sftpmod.UInt64(offset)
+        if not self.immediate:
+            await self.ctl.call('w', offset, bytes(data))     # raises when the reply is an error / EOF status
         if self.append:
             self.file += data
         else:
-            pwrite(self.file, offset, data)          # the server applies the write on receipt
-        if self.immediate:
-            return len(data)
-        return await self.ctl.call('w', offset, bytes(data))
+            pwrite(self.file, offset, data)          # the server applied the write and answered FX_OK
+        return len(data)
 
     async def fstat(self, handle: bytes, flags: int = 0) -> Any:
         return sftpmod.SFTPAttrs(size=len(self.file))
@@ -221,11 +250,12 @@ class FakeDstFile:
         self.content = bytearray()
 
     async def write(self, data: bytes, offset: int) -> int:
-        pwrite(self.content, offset, data)
         e_fut = self.ctl.call('w', offset, bytes(data))
         self.ctl.out[-1].req = self.ctl.read_req.pop(offset, None)
         self.ctl.out[-1].noerr = self.ctl.out[-1].req is None     # the extension write of a sparse copy
-        return await e_fut
+        n = await e_fut                          # raises when the reply is an error / EOF status
+        pwrite(self.content, offset, data)
+        return n
 
     async def close(self) -> None:
         return None
@@ -303,6 +333,8 @@ class Schedule:
                 rk, data = self.reply_read(src, e.off, e.arg, eof_as_empty)
             else:
                 rk, data = ('x', b'') if (self.perr and rng.random() < self.perr and not e.noerr) else ('o', b'')
+                if rk == 'x' and rng.random() < 0.4:
+                    rk = 'e'                     # the WRITE is answered with an FX_EOF status
             res.append((e, rk, data))
         self.record.append([[e.kind, e.off, rk, data.hex()] for e, rk, data in res])
         return res
@@ -419,15 +451,20 @@ def run_reader(B: int, M: int, start: int, size: int, src: bytes, sched: Schedul
 
 
 def run_fread(block_size: int, max_read_len: int, M: int, off: int, size: int, src: bytes,
-              sched: Schedule) -> Tuple[str, str]:
+              sched: Schedule, to_end: Optional[int] = None) -> Tuple[str, str]:
+    """`to_end`: None = read(size, off); -1 / 0 = read(-1, off) / read(offset=off) (to the end of the file; `size`
+    must then be what `_end() - offset` gives: len(src) - off)"""
     async def go() -> Tuple[str, str]:
         ctl = Ctl()
         h = FakeHandler(ctl, bytearray(src), max_read_len=max_read_len)
         f = sftpmod.SFTPClientFile(h, b'h', False, None, 'strict', block_size, M)
-        ev, batches, task = await drive(lambda: f.read(size, off), ctl, sched, src, 'read', True)
+        call = (lambda: f.read(size, off)) if to_end is None else \
+            ((lambda: f.read(-1, off)) if to_end == -1 else (lambda: f.read(offset=off)))
+        ev, batches, task = await drive(call, ctl, sched, src, 'read', True)
         rl = max_read_len if block_size == -1 else block_size
-        par = 'parallel' if (rl and size > min(rl, max_read_len)) else 'single'
-        line = f'fread {flags()["strict"]} {rl} {max_read_len} {M} {off} {size} ' + ' '.join(ev)
+        te = int(to_end is not None)
+        par = 'parallel' if (rl and ((flags()['ter'] and te) or size > min(rl, max_read_len))) else 'single'
+        line = f'fread {flags()["strict"]} {flags()["ter"]} {te} {rl} {max_read_len} {M} {off} {size} ' + ' '.join(ev)
         if par == 'single':
             return line.strip(), 'single ' + batches[0] + ' ' + outcome_of(task)
         return line.strip(), 'parallel ' + ';'.join(batches) + ' ' + outcome_of(task)
@@ -444,7 +481,7 @@ def run_writer(B: int, M: int, start: int, data: bytes, file0: bytes, sched: Sch
         out = outcome_of(task)
         if out == 'ok':
             out = 'ok:' + hx(bytes(file))
-        return (f'write {B} {M} {start} {hx(data)} {hx(file0)} ' + ' '.join(ev)).strip(), \
+        return (f'write {flags()["eof"]} {flags()["wall"]} {B} {M} {start} {hx(data)} {hx(file0)} ' + ' '.join(ev)).strip(), \
             ';'.join(batches) + ' ' + out, bytes(file)
     return pair.run(go(), timeout=120)
 
@@ -465,7 +502,7 @@ def run_copier(B: int, M: int, total: int, sparse: bool, ranges: List[Tuple[int,
         if out == 'ok':
             out = 'ok:' + hx(bytes(df.content))
         rs = ','.join(f'{o}:{l}' for o, l in ranges) if (sparse and ranges) else '-'
-        return (f'copy {flags()["ext"]} {B} {M} {total} {int(sparse)} {rs} ' + ' '.join(ev)).strip(), \
+        return (f'copy {flags()["ext"]} {flags()["eof"]} {B} {M} {total} {int(sparse)} {rs} ' + ' '.join(ev)).strip(), \
             ';'.join(batches) + ' ' + out + f' copied={copied[0]}', bytes(df.content)
     return pair.run(go(), timeout=120)
 
@@ -494,6 +531,34 @@ def gen_fops(rng: Any, nasty: bool) -> List[Tuple[Any, ...]]:
     return ops
 
 
+TEXT_ENCODINGS = ['utf-8', 'utf-8', 'utf-16', 'utf-32', 'utf-16-le', 'latin-1']
+TEXT_ALPHABET = ['a', 'Z', ' ', '\n', '\u00e9', '\u0142', '\u00ff', '\u8ee2', '\u9001', '\U0001f600']
+
+
+def gen_text_ops(rng: Any, encoding: str) -> List[Tuple[Any, ...]]:
+    """calls on a file opened in TEXT mode: mostly consecutive write(str) without offset, with tell() and relative
+    seeks in between.  A write op is ('w', <encoded bytes>, None, <the str handed to write()>): the model and
+    the POSIX reference get the bytes, the real file object the string."""
+    alpha = [c for c in TEXT_ALPHABET if encoding != 'latin-1' or ord(c) < 256]
+    ops: List[Tuple[Any, ...]] = []
+    for _ in range(rng.randint(2, 8)):
+        r = rng.random()
+        if r < 0.65:
+            n = rng.choice([0, 1, 1, 2, 3, 5, 9])
+            text = ''.join(rng.choice(alpha) for _ in range(n))
+            ops.append(('w', text.encode(encoding), None, text))
+        elif r < 0.8:
+            ops.append(('t',))
+        elif r < 0.9:
+            ops.append(('sc', rng.randint(-2, 3)))
+        elif r < 0.95:
+            ops.append(('se', rng.randint(-3, 2)))
+        else:
+            ops.append(('ss', rng.randint(0, 9)))
+    ops.append(('t',))
+    return ops
+
+
 def fop_token(op: Tuple[Any, ...]) -> str:
     n = lambda v: 'n' if v is None else str(v)  # noqa: E731
     if op[0] == 'r':
@@ -506,11 +571,11 @@ def fop_token(op: Tuple[Any, ...]) -> str:
 
 
 def run_fobj(appending: bool, block_size: int, max_len: int, content0: bytes,
-             ops: List[Tuple[Any, ...]]) -> Tuple[str, str]:
+             ops: List[Tuple[Any, ...]], encoding: Optional[str] = None) -> Tuple[str, str]:
     async def go() -> Tuple[str, str]:
         file = bytearray(content0)
         h = FakeHandler(Ctl(), file, max_read_len=max_len, max_write_len=max_len, immediate=True, append=appending)
-        f = sftpmod.SFTPClientFile(h, b'h', appending, None, 'strict', block_size, 2)
+        f = sftpmod.SFTPClientFile(h, b'h', appending, encoding, 'strict', block_size, 2)
         res = []
         for op in ops:
             try:
@@ -518,7 +583,7 @@ def run_fobj(appending: bool, block_size: int, max_len: int, content0: bytes,
                     r = await (f.read(op[1], op[2]) if op[1] is not None else f.read(offset=op[2]))
                     res.append('b' + hx(r))
                 elif op[0] == 'w':
-                    res.append('n%d' % await f.write(op[1], op[2]))
+                    res.append('n%d' % await f.write(op[3] if len(op) > 3 else op[1], op[2]))
                 elif op[0] == 'ss':
                     res.append('n%d' % await f.seek(op[1]))
                 elif op[0] == 'sc':
@@ -533,7 +598,7 @@ def run_fobj(appending: bool, block_size: int, max_len: int, content0: bytes,
                 res.append('exc:' + type(e).__name__)
         pos = await f.tell()
         rl = max_len if block_size == -1 else block_size
-        line = f'fobj {int(appending)} {rl} {rl} {max_len} {hx(content0)} ' + ' '.join(fop_token(o) for o in ops)
+        line = f'fobj {int(appending)} {flags()["ter"]} {rl} {rl} {max_len} {hx(content0)} ' + ' '.join(fop_token(o) for o in ops)
         return line, ','.join(res) + ' ' + hx(bytes(file)) + ' ' + str(pos)
     return pair.run(go(), timeout=60)
 
@@ -541,7 +606,7 @@ def run_fobj(appending: bool, block_size: int, max_len: int, content0: bytes,
 def canon_fobj(line: str, out: str) -> str:
     """a write that raised may have been applied in part (blocks of the parallel writer): the file content after
     it is unspecified, so the comparison stops at that call"""
-    ops = line.split(' ')[6:]
+    ops = line.split(' ')[7:]
     parts = out.split(' ')
     rs = parts[0].split(',')
     for k, (o, r) in enumerate(zip(ops, rs)):
@@ -556,13 +621,43 @@ def canon_fobj(line: str, out: str) -> str:
 
 class Behaviour:
     def __init__(self, rng: Any, pshort: float = 0.4, fail_read: Optional[int] = None,
-                 fail_write: Optional[int] = None, lie_size: int = 0, ooo: bool = True):
+                 fail_write: Optional[int] = None, lie_size: int = 0, ooo: bool = True,
+                 eof_write: Optional[int] = None, fsize_limit: Optional[int] = None, hide_size: Optional[str] = None):
         self.rng, self.pshort, self.fail_read, self.fail_write, self.lie_size, self.ooo = \
             rng, pshort, fail_read, fail_write, lie_size, ooo
+        self.eof_write = eof_write          # the n-th WRITE is answered with an FX_EOF status
+        self.fsize_limit = fsize_limit      # files opened for writing cannot grow past this size (as RLIMIT_FSIZE / a
+        #                                     full disk: the write() that crosses the limit is short, the next one fails)
+        self.hide_size = hide_size          # 'none' / 'zero': the attributes of `src` carry no size / size 0
         self.nread = self.nwrite = 0
         self.readlog: List[Tuple[int, int, int]] = []       # (offset, size, returned) in completion order
         self.writelog: List[Tuple[int, int]] = []
+        self.wevents: List[str] = []        # the writer model's events, in completion order
         self.faulted = False
+        self.short_write: Optional[Tuple[int, int, int]] = None   # (offset, size, accepted) of the first short write()
+
+
+class LimitedFile:
+    """What `open(..., buffering=0)` gives, on a file system where the file cannot grow past `limit` bytes: the
+    write() that crosses the limit writes the part that fits and returns that count, a write() at or past the
+    limit raises (EFBIG under RLIMIT_FSIZE, ENOSPC/EDQUOT on a full disk / quota)."""
+
+    def __init__(self, f: Any, limit: int, beh: Behaviour):
+        self._f, self._limit, self._beh = f, limit, beh
+        self.last_short: Optional[int] = None
+
+    def write(self, data: Any) -> int:
+        pos = self._f.tell()
+        room = self._limit - pos
+        if room <= 0 and len(data):
+            raise OSError(27, 'File too large')
+        if len(data) > room:
+            self.last_short = room
+            return self._f.write(bytes(data[:room]))
+        return self._f.write(data)
+
+    def __getattr__(self, name: str) -> Any:
+        return getattr(self._f, name)
 
 
 def server_factory(beh: Behaviour) -> Any:
@@ -588,14 +683,59 @@ def server_factory(beh: Behaviour) -> Any:
                 await asyncio.sleep(0)
             if beh.fail_write is not None and n == beh.fail_write:
                 beh.faulted = True
+                beh.wevents.append(f'x:{offset}:{len(data)}')
                 raise sftpmod.SFTPFailure('injected write failure')
+            if beh.eof_write is not None and n == beh.eof_write:
+                beh.faulted = True
+                beh.wevents.append(f'e:{offset}:{len(data)}')
+                raise sftpmod.SFTPEOFError('')
+            if isinstance(file_obj, LimitedFile):
+                file_obj.last_short = None
+                failed: Optional[OSError] = None
+                r = 0
+                try:
+                    r = super().write(file_obj, offset, data)
+                except OSError as exc:
+                    failed = exc
+                if file_obj.last_short is not None:      # the kernel accepted only a part of this block
+                    beh.faulted = True
+                    if beh.short_write is None:
+                        beh.short_write = (offset, len(data), file_obj.last_short)
+                    beh.wevents.append(f's:{offset}:{len(data)}:{file_obj.last_short}')
+                elif failed is not None:
+                    beh.faulted = True
+                    beh.wevents.append(f'x:{offset}:{len(data)}')
+                else:
+                    beh.writelog.append((offset, len(data)))
+                    beh.wevents.append(f'o:{offset}:{len(data)}')
+                if failed is not None:
+                    raise failed
+                return r
             beh.writelog.append((offset, len(data)))
+            beh.wevents.append(f'o:{offset}:{len(data)}')
             return super().write(file_obj, offset, data)
 
+        def open(self, path: bytes, pflags: int, attrs: Any) -> Any:
+            f = super().open(path, pflags, attrs)
+            if beh.fsize_limit is not None and (pflags & sftpmod.FXF_WRITE):
+                return LimitedFile(f, beh.fsize_limit, beh)
+            return f
+
         def _lie(self, attrs: Any, path: bytes) -> Any:
-            if beh.lie_size and path.endswith(b'src'):
+            if (beh.lie_size or beh.hide_size) and path.endswith(b'src'):
                 attrs = sftpmod.SFTPAttrs.from_local(attrs) if not isinstance(attrs, sftpmod.SFTPAttrs) else attrs
-                attrs.size = (attrs.size or 0) + beh.lie_size
+                if beh.hide_size:
+                    attrs.size = None if beh.hide_size == 'none' else 0
+                else:
+                    attrs.size = (attrs.size or 0) + beh.lie_size
+            return attrs
+
+        def fstat(self, file_obj: Any) -> Any:
+            attrs = super().fstat(file_obj)
+            name = getattr(file_obj, 'name', b'')
+            if beh.hide_size and isinstance(name, bytes) and name.endswith(b'src'):
+                attrs = sftpmod.SFTPAttrs.from_local(attrs)
+                attrs.size = None if beh.hide_size == 'none' else 0
             return attrs
 
         def stat(self, path: bytes) -> Any:
@@ -687,7 +827,8 @@ def real_ranges(path: str, limit: int) -> List[Tuple[int, int]]:
 async def e2e(op: str, d: str, src: bytes, B: int, M: int, beh: Behaviour, sparse: bool = False,
               remote_copy: bool = True, extents: Optional[List[Tuple[int, bytes]]] = None,
               length: Optional[int] = None, truncate_to: Optional[int] = None,
-              off: int = 0, size: int = -1, file0: bytes = b'') -> Dict[str, Any]:
+              off: int = 0, size: int = -1, file0: bytes = b'', texts: Optional[List[str]] = None,
+              encoding: Optional[str] = None) -> Dict[str, Any]:
     """One end-to-end operation in directory d.  Returns outcome, destination bytes, source bytes."""
     sp, dp = os.path.join(d, 'src'), os.path.join(d, 'dst')
     if extents is not None:
@@ -715,6 +856,12 @@ async def e2e(op: str, d: str, src: bytes, B: int, M: int, beh: Behaviour, spars
                     elif op == 'read':
                         async with sftp.open(sp, 'rb', block_size=B, max_requests=M) as f:
                             res['dst'] = await asyncio.wait_for(f.read(size, off), 60)
+                    elif op == 'read_all':              # read() / read(-1): everything up to the end of the file
+                        async with sftp.open(sp, 'rb', block_size=B, max_requests=M) as f:
+                            if off:
+                                await f.seek(off)
+                            res['dst'] = await asyncio.wait_for(f.read() if size % 2 else f.read(-1), 60)
+                            res['tell'] = await f.tell()
                     elif op == 'read_parallel':
                         async with sftp.open(sp, 'rb', block_size=B, max_requests=M) as f:
                             buf = bytearray()
@@ -725,6 +872,15 @@ async def e2e(op: str, d: str, src: bytes, B: int, M: int, beh: Behaviour, spars
                         write_file(dp, file0)
                         async with sftp.open(dp, 'r+b', block_size=B, max_requests=M) as f:
                             await asyncio.wait_for(f.write(src, off), 60)
+                        res['dst'] = read_file(dp)
+                    elif op == 'write_text':            # consecutive write(str) calls on a file opened in text mode
+                        kw = {} if encoding is None else {'encoding': encoding}
+                        async with sftp.open(dp, 'w', block_size=B, max_requests=M, **kw) as f:
+                            pos = 0
+                            for t in texts or []:
+                                pos += await asyncio.wait_for(f.write(t), 60)
+                                if await f.tell() != pos:
+                                    res['tell_mismatch'] = (await f.tell(), pos)
                         res['dst'] = read_file(dp)
                     res['outcome'] = 'ok'
                 except asyncio.TimeoutError:
@@ -740,6 +896,8 @@ async def e2e(op: str, d: str, src: bytes, B: int, M: int, beh: Behaviour, spars
 
 
 def expected_e2e(op: str, src: bytes, off: int, size: int, file0: bytes) -> bytes:
+    if op == 'read_all':
+        return src[off:]
     if op in ('read', 'read_parallel'):
         return src[off:] if size < 0 else src[off:off + size]
     if op == 'write':
@@ -763,6 +921,8 @@ def _case_stream(ctx: Ctx, rng: Any, n: int, small: bool, perr: float, mode: str
         cases.append(dict(kind=kind, B=B, M=M, size=size, L=L, start=start, seed=rng.randrange(1 << 30),
                           perr=perr if rng.random() < 0.3 else 0.0, mode=mode,
                           sparse=(kind == 'copy' and rng.random() < 0.4)))
+        if kind == 'fread' and rng.random() < 0.5:
+            cases[-1]['to_end'] = rng.choice([-1, 0])         # read(-1) / read(): to the end of the file
     return cases
 
 
@@ -800,8 +960,13 @@ def run_case(case: Dict[str, Any], record: Optional[List[List[Any]]] = None) -> 
     elif case['kind'] == 'fread':
         bs = rng.choice([B, B, -1, 0])
         mrl = rng.choice([B, 2 * B, 1 << 22])
-        line, impl = run_fread(bs, mrl, M, start, size, src, sched)
+        to_end = case.get('to_end')
+        if to_end is not None:
+            start = min(start, len(src))
+            size = len(src) - start              # what `_end() - offset` gives
+        line, impl = run_fread(bs, mrl, M, start, size, src, sched, to_end)
         out['expect_prefix'] = src[start:start + size]
+        out['to_end_with_block_size'] = to_end is not None and bs != 0
     elif case['kind'] == 'write':
         data = content(rng, size)
         file0 = content(rng, rng.choice([0, 0, 1, start, start + size + 2]))
@@ -856,6 +1021,18 @@ def correspondence(ctx: Ctx) -> CorrResult:
         expect.append(('fobj', {'appending': appending, 'block_size': bs, 'content': c0.hex(),
                                 'ops': [fop_token(o) for o in ops]}, impl))
         hist.hit('fobj:' + ('nasty' if nasty else 'plain'))
+    # (3b) the same machine for files opened in TEXT mode: the model is given the encoded bytes of each string
+    for i in range(ctx.n(250, 2000)):
+        enc = rng.choice(TEXT_ENCODINGS)
+        appending = rng.random() < 0.25
+        bs = rng.choice([0, 2, 3, 7, -1])
+        c0 = bytes(rng.randrange(1, 256) for _ in range(rng.choice([0, 0, 3, 9])))
+        ops = gen_text_ops(rng, enc)
+        line, impl = run_fobj(appending, bs, rng.choice([4, 1 << 22]), c0, ops, encoding=enc)
+        lines.append(line)
+        expect.append(('fobj', {'appending': appending, 'block_size': bs, 'content': c0.hex(), 'encoding': enc,
+                                'ops': [fop_token(o) for o in ops]}, impl))
+        hist.hit('fobj:text:' + enc)
 
     # (4) the SEEK_DATA walk on real sparse files (page-aligned extents)
     scratch = ctx.tmpdir()
@@ -893,9 +1070,16 @@ def correspondence(ctx: Ctx) -> CorrResult:
         size = rng.choice([s for s in boundary_sizes(B, M, rng) if s <= 70000] or [B])
         if B <= 2:
             size = min(size, 300)
-        op = ['get', 'put', 'copy', 'read', 'write'][i % 5]
-        e2e_cases.append(dict(op=op, B=B, M=M, size=size, seed=rng.randrange(1 << 30),
-                              remote_copy=(rng.random() < 0.5), off=rng.choice([0, 1, B]) if op in ('read', 'write') else 0))
+        op = ['get', 'put', 'copy', 'read', 'write', 'read_all', 'write', 'put'][i % 8]
+        fault = 'none'
+        if i % 8 >= 6 and size:
+            fault = rng.choice(['write-eof', 'fsize'])        # EOF status for a WRITE / a destination that cannot grow
+        if op == 'read_all':
+            B = rng.choice([B, -1, 0])
+        e2e_cases.append(dict(op=op, B=B, M=M, size=size, seed=rng.randrange(1 << 30), fault=fault,
+                              remote_copy=(rng.random() < 0.5),
+                              off=rng.choice([0, 1, B]) if op in ('read', 'write') else
+                              (min(size, rng.choice([0, 1, size // 2])) if op == 'read_all' else 0)))
 
     async def run_e2e() -> List[Dict[str, Any]]:
         import random
@@ -905,7 +1089,8 @@ def correspondence(ctx: Ctx) -> CorrResult:
             src = content(r, cs['size'])
             d = os.path.join(scratch, f'e{i}')
             os.makedirs(d)
-            beh = Behaviour(r)
+            beh = Behaviour(r, eof_write=r.randint(1, 3) if cs['fault'] == 'write-eof' else None,
+                            fsize_limit=r.randint(0, cs['size'] - 1) if cs['fault'] == 'fsize' else None)
             if cs['op'] == 'copy' and cs['remote_copy']:
                 beh.pshort = 0.0    # the server-side copy-data loop takes a short SFTPServer.read for EOF
             file0 = content(r, r.choice([0, 3, cs['size'] + 5])) if cs['op'] == 'write' else b''
@@ -918,28 +1103,37 @@ def correspondence(ctx: Ctx) -> CorrResult:
     for cs, o in zip(e2e_cases, pair.run(run_e2e(), timeout=900)):
         beh = o['beh']
         src, B, M, op = o['src'], cs['B'], cs['M'], cs['op']
-        impl = o['outcome'].split(':')[0] + (':' + hx(o.get('dst') or b'') if o['outcome'] == 'ok' else '')
+        impl = ('short' if 'Unexpected EOF' in o['outcome'] else o['outcome'].split(':')[0]) + \
+            (':' + hx(o.get('dst') or b'') if o['outcome'] == 'ok' else '')
         hist.hit(f'e2e:{op}:' + o['outcome'].split(':')[0])
         if op == 'get' or (op == 'copy' and not cs['remote_copy']):
             ev = ' '.join(f'd:{a}:{s}:{hx(src[a:a + c])} b' for a, s, c in beh.readlog)
-            lines.append(f'copy {flags()["ext"]} {B} {M} {len(src)} 0 - {ev}'.strip())
+            lines.append(f'copy {flags()["ext"]} {flags()["eof"]} {B} {M} {len(src)} 0 - {ev}'.strip())
             expect.append(('e2e-' + op, cs, impl))
-        elif op == 'read':
+        elif op in ('read', 'read_all'):
             ev = ' '.join((f'd:{a}:{s}:{hx(src[a:a + c])} b' if c else f'e:{a}:{s} b') for a, s, c in beh.readlog)
-            rl = B
-            lines.append(f'fread {flags()["strict"]} {rl} {1 << 22} {M} {cs["off"]} {cs["size"]} {ev}'.strip())
-            expect.append(('e2e-read', cs, impl))
+            mrl = 1 << 22
+            rl = mrl if B == -1 else B
+            te = int(op == 'read_all')
+            sz = max(0, len(src) - cs['off']) if te else cs['size']
+            lines.append(f'fread {flags()["strict"]} {flags()["ter"]} {te} {rl} {mrl} {M} {cs["off"]} {sz} {ev}'.strip())
+            expect.append(('e2e-' + op, cs, impl))
         elif op == 'write':
-            ev = ' '.join(f'o:{a}:{n} b' for a, n in beh.writelog)
+            ev = ' '.join(w + ' b' for w in beh.wevents)
             if len(src) > B:
-                lines.append(f'write {B} {M} {cs["off"]} {hx(src)} {hx(o["file0"])} {ev}'.strip())
+                lines.append(f'write {flags()["eof"]} {flags()["wall"]} {B} {M} {cs["off"]} {hx(src)} {hx(o["file0"])} {ev}'.strip())
                 expect.append(('e2e-write', cs, impl))
         elif op == 'copy':
             lines.append(f'rcopy {hx(src)} 0:{len(src)}')
             expect.append(('e2e-rcopy', cs, impl))
-        else:       # put: the reads are local and full; one block per request
-            ev = ' '.join(f'd:{a}:{n}:{hx(src[a:a + n])} b' for a, n in beh.writelog)
-            lines.append(f'copy {flags()["ext"]} {B} {M} {len(src)} 0 - {ev}'.strip())
+        elif not any(w.startswith('s:') for w in beh.wevents):
+            # put: the reads are local and full; one block per request.  (A short server-side write has no
+            # counterpart in the copier model's replies: such runs are judged by the oracle only.)
+            def tok(w: str) -> str:
+                k, a, n = w.split(':')[:3]
+                return f'd:{a}:{n}:{hx(src[int(a):int(a) + int(n)])} b' if k == 'o' else f'{k}:{a}:{n} b'
+            ev = ' '.join(tok(w) for w in beh.wevents)
+            lines.append(f'copy {flags()["ext"]} {flags()["eof"]} {B} {M} {len(src)} 0 - {ev}'.strip())
             expect.append(('e2e-put', cs, impl))
 
     # run the model --------------------------------------------------------------------------------
@@ -991,12 +1185,20 @@ def check_fake(case: Dict[str, Any], r: Dict[str, Any]) -> Optional[Tuple[str, s
     toks = impl.split(' ')
     oc = next((t for t in toks if t.startswith(('ok', 'raised', 'short', 'exc', 'cancelled'))), 'none')
     injected = any(x[2] == 'x' for b in r['record'] for x in b)
+    eof_on_write = any(x[2] == 'e' and x[0] == 'w' for b in r['record'] for x in b)
     if oc.startswith('ok'):
         got = unhx(oc[3:]) if ':' in oc else b''
         if injected:
             return ('error-swallowed:' + kind, f'a block failed but {kind} returned normally')
+        if eof_on_write:
+            return (SIG_EOF_ON_WRITE,
+                    f'{"_SFTPFileWriter" if kind == "write" else "_SFTPFileCopier"}: a WRITE was answered with an FX_EOF status but {kind} returned normally'
+                    + (f' with {len(got)} of {len(r["expect"])} bytes at the destination' if 'expect' in r else ''))
         if kind == 'fread':
             exp = r['expect_prefix']
+            if r.get('to_end_with_block_size') and got != exp:
+                return (SIG_READ_TO_END, f'read() to the end of a {len(exp)}-byte range returned normally with '
+                                         f'{len(got)} bytes: a short reply to the single request was taken as final')
             if not (exp.startswith(got) and (got or not exp)):
                 return ('silent-corruption:fread', f'read returned {got[:16].hex()}… expected a prefix of {exp[:16].hex()}…')
             if toks[0] == 'parallel' and got != exp:
@@ -1017,10 +1219,10 @@ def check_fake(case: Dict[str, Any], r: Dict[str, Any]) -> Optional[Tuple[str, s
                                                  f'(len {len(got)} vs {len(r["expect"])})')
         return None
     if oc in ('raised',):
-        return None if injected else (f'spurious-error:{kind}', 'operation raised although no block failed')
+        return None if (injected or eof_on_write) else (f'spurious-error:{kind}', 'operation raised although no block failed')
     if oc == 'short':
-        if kind == 'copy' and not case['sparse'] and r['src_len'] < case['size']:
-            return None
+        if kind == 'copy' and not case['sparse'] and (r['src_len'] < case['size'] or eof_on_write or injected):
+            return None       # (an EOF status for a WRITE surfaces as this error in a tree that takes it for EOF)
         return ('spurious-error:copy', 'Unexpected EOF raised although the source has its announced size')
     return (f'hang-or-crash:{kind}', f'outcome {oc}')
 
@@ -1107,8 +1309,42 @@ def oracle(ctx: Ctx) -> OracleResult:
                  {'kind': 'fobj', 'appending': appending, 'block_size': bs, 'content': c0.hex(),
                   'ops': [[o[0]] + [x.hex() if isinstance(x, bytes) else x for x in o[1:]] for o in ops]})
 
+    # (d') files opened in text mode: consecutive write(str) calls, tell(), relative seeks; the POSIX file is given the
+    #      encoded bytes.  A difference that disappears when the same bytes are written in binary mode is the text
+    #      path's own (position / block arithmetic in characters instead of encoded bytes).
+    text_cases: List[Tuple[str, bool, int, bytes, List[Tuple[Any, ...]]]] = []
+    for enc, texts in TEXT_CORPUS:
+        for bs in (-1, 3, 0):
+            text_cases.append((enc, False, bs, b'', [('w', t.encode(enc), None, t) for t in texts] + [('t',)]))
+    for i in range(ctx.n(200, 3000)):
+        enc = rng.choice(TEXT_ENCODINGS)
+        appending = rng.random() < 0.25
+        ops = [o for o in gen_text_ops(rng, enc) if not (appending and o[0] == 'w' and not o[1])]
+        text_cases.append((enc, appending, rng.choice([0, 2, 3, 7, -1]),
+                           bytes(rng.randrange(1, 256) for _ in range(rng.choice([0, 0, 3, 9]))), ops))
+    for i, (enc, appending, bs, c0, ops) in enumerate(text_cases):
+        path = os.path.join(scratch, f'tf{i % 50}')
+        bad = check_fobj_posix(path, appending, bs, c0, ops, encoding=enc)
+        res.evaluations += 1
+        seen.add(('fobj-text', enc, appending, bs, c0, tuple(fop_token(o) for o in ops)))
+        hist.hit('fobj-posix:text:' + enc)
+        if bad:
+            sig = 'fileobj-position:' + bad[0]
+            if check_fobj_posix(path, appending, bs, c0, [o[:3] if o[0] == 'w' else o for o in ops]) is None:
+                sig = SIG_TEXT_POS
+            fail(sig, f'file opened with encoding={enc!r}: ' + bad[1] +
+                 f' [appending={appending} block_size={bs} content={c0.hex()} ops={[text_token(o) for o in ops]}]',
+                 {'kind': 'fobj', 'appending': appending, 'block_size': bs, 'content': c0.hex(), 'encoding': enc,
+                  'ops': [[o[0]] + [x.hex() if isinstance(x, bytes) else x for x in o[1:]] for o in ops]})
+
     # (c) end to end ---------------------------------------------------------------------------------------
     res.failures = pair.run(_oracle_e2e(ctx, rng, scratch, hist, res, seen), timeout=3000) + res.failures
+    # one failing input per root cause first (the runner prints the first few)
+    firsts: List[Failure] = []
+    rest: List[Failure] = []
+    for f in res.failures:
+        (rest if any(x.signature == f.signature for x in firsts) else firsts).append(f)
+    res.failures = firsts + rest
     res.nontrivial = len(seen)
     res.histogram = dict(hist)
     res.samples = [{'case': {k: v for k, v in c.items()}} for c in cases[:2]]
@@ -1121,15 +1357,70 @@ def oracle(ctx: Ctx) -> OracleResult:
     return res
 
 
+# deterministic end-to-end cases (run first): one per root cause found by the model/code audit
+E2E_CORPUS: List[Dict[str, Any]] = [
+    # the destination cannot take the whole file: the server-side write() that crosses the limit is short
+    dict(op='put', B=16384, M=2, size=30000, seed=101, fault='fsize', limit=20000, sparse=False, remote_copy=True, off=0, ooo=False),
+    dict(op='put', B=-1, M=-1, size=70000, seed=102, fault='fsize', limit=65536, sparse=True, remote_copy=True, off=0, ooo=False),
+    dict(op='write', B=16384, M=2, size=30000, seed=103, fault='fsize', limit=20000, sparse=False, remote_copy=True, off=0, ooo=False),
+    dict(op='write', B=0, M=1, size=3000, seed=104, fault='fsize', limit=1000, sparse=False, remote_copy=True, off=0, ooo=False),
+    dict(op='copy', B=16384, M=2, size=30000, seed=105, fault='fsize', limit=20000, sparse=False, remote_copy=True, off=0, ooo=False),
+    dict(op='copy', B=16384, M=2, size=30000, seed=106, fault='fsize', limit=20000, sparse=False, remote_copy=False, off=0, ooo=False),
+    # a WRITE answered with an FX_EOF status
+    dict(op='write', B=1000, M=3, size=10000, seed=111, fault='write-eof', nth=4, sparse=False, remote_copy=True, off=0, ooo=False),
+    dict(op='put', B=1000, M=3, size=10000, seed=112, fault='write-eof', nth=4, sparse=True, remote_copy=True, off=0, ooo=False),
+    dict(op='put', B=1000, M=3, size=10000, seed=113, fault='write-eof', nth=2, sparse=False, remote_copy=True, off=0, ooo=True),
+    dict(op='copy', B=1000, M=2, size=5000, seed=114, fault='write-eof', nth=3, sparse=True, remote_copy=False, off=0, ooo=False),
+    dict(op='write', B=0, M=1, size=3000, seed=115, fault='write-eof', nth=1, sparse=False, remote_copy=True, off=0, ooo=False),
+    # read() to the end of a file below the block size, server answers short
+    dict(op='read_all', B=-1, M=-1, size=1000, seed=121, fault='none', pshort=1.0, sparse=False, remote_copy=True, off=0, ooo=False),
+    dict(op='read_all', B=-1, M=-1, size=40001, seed=122, fault='none', pshort=1.0, sparse=False, remote_copy=True, off=7, ooo=True),
+    dict(op='read_all', B=16384, M=2, size=16384, seed=123, fault='none', pshort=1.0, sparse=False, remote_copy=True, off=0, ooo=True),
+    # a source whose attributes carry no size / size 0 (as /proc files do)
+    dict(op='get', B=16384, M=2, size=5000, seed=131, fault='size-none', sparse=False, remote_copy=True, off=0, ooo=False),
+    dict(op='get', B=-1, M=-1, size=1430, seed=132, fault='size-zero', sparse=True, remote_copy=True, off=0, ooo=False),
+    dict(op='copy', B=16384, M=2, size=5000, seed=133, fault='size-none', sparse=False, remote_copy=False, off=0, ooo=False),
+    dict(op='read_all', B=-1, M=-1, size=1430, seed=134, fault='size-zero', sparse=False, remote_copy=True, off=0, ooo=False),
+    # text mode: the position moves by the encoded bytes (default utf-8 with non-ASCII text, utf-16, utf-32; the last one
+    # goes through the parallel writer)
+    dict(op='write_text', B=-1, M=-1, size=0, seed=151, fault='none', sparse=False, remote_copy=True, off=0, ooo=False,
+         texts=['na\u00efve caf\u00e9 cr\u00e8me br\u00fbl\u00e9e\n', '\u8ee2\u9001\u3055\u308c\u305f\n', 'status: \U0001f600 done\n']),
+    dict(op='write_text', B=-1, M=-1, size=0, seed=152, fault='none', sparse=False, remote_copy=True, off=0, ooo=False,
+         encoding='utf-16', texts=['plain ascii line\n', 'second\n', 'tail\n']),
+    dict(op='write_text', B=-1, M=-1, size=0, seed=153, fault='none', sparse=False, remote_copy=True, off=0, ooo=False,
+         encoding='utf-32', texts=['ab', '\u00e9', 'cd']),
+    dict(op='write_text', B=1024, M=3, size=0, seed=154, fault='none', sparse=False, remote_copy=True, off=0, ooo=True,
+         texts=['000000 \u00e9\u00e8\u00ea \u0142\u00f3\u017c\n', 'trailer\n', '\u00e9'], repeat=300),
+    # non-sparse copy on one connection of a source shorter than announced
+    dict(op='copy', B=16384, M=2, size=12345, seed=141, fault='lie', sparse=False, remote_copy=True, off=0, ooo=False),
+]
+
+
+TEXT_CORPUS: List[Tuple[str, List[str]]] = [
+    ('utf-8', ['na\u00efve caf\u00e9 cr\u00e8me br\u00fbl\u00e9e\n', 'za\u017c\u00f3\u0142\u0107 g\u0119\u015bl\u0105 ja\u017a\u0144\n', 'tail\n']),
+    ('utf-8', ['\u8ee2\u9001\u3055\u308c\u305f\u30d5\u30a1\u30a4\u30eb\n', 'status: \U0001f600 done\n', 'x']),
+    ('utf-16', ['plain ascii line\n', 'second line\n']),
+    ('utf-32', ['ab', '\u00e9', 'cd']),
+    ('utf-16-le', ['plain ascii line number one\n', 'PLAIN\n', 'tail\n']),
+    ('latin-1', ['na\u00efve caf\u00e9\n', 'tail\n']),
+]
+
+
+def text_token(op: Tuple[Any, ...]) -> str:
+    return f'w:{op[3]!r}' if (op[0] == 'w' and len(op) > 3) else fop_token(op)
+
+
 def check_fobj_posix(path: str, appending: bool, block_size: int, content0: bytes,
-                     ops: List[Tuple[Any, ...]]) -> Optional[Tuple[str, str]]:
-    """the same calls on an SFTPClientFile (ideal server) and on a raw Python file; first difference"""
+                     ops: List[Tuple[Any, ...]], encoding: Optional[str] = None) -> Optional[Tuple[str, str]]:
+    """the same calls on an SFTPClientFile (ideal server) and on a raw Python file; first difference.
+    With `encoding` the SFTPClientFile is a text-mode file: its write() gets the str (op[3]), the raw file the
+    encoded bytes (op[1])."""
     write_file(path, content0)
 
     async def go() -> Optional[Tuple[str, str]]:
         file = bytearray(content0)
         h = FakeHandler(Ctl(), file, max_read_len=4, max_write_len=4, immediate=True, append=appending)
-        f = sftpmod.SFTPClientFile(h, b'h', appending, None, 'strict', block_size, 2)
+        f = sftpmod.SFTPClientFile(h, b'h', appending, encoding, 'strict', block_size, 2)
         with open(path, 'a+b' if appending else 'r+b', buffering=0) as ref:
             for k, op in enumerate(ops):
                 try:
@@ -1149,7 +1440,7 @@ def check_fobj_posix(path: str, appending: bool, block_size: int, content0: byte
                     if op[0] == 'r':
                         got: Any = await (f.read(op[1]) if op[1] is not None else f.read())
                     elif op[0] == 'w':
-                        got = await f.write(op[1])
+                        got = await f.write(op[3] if (encoding and len(op) > 3) else op[1])
                     elif op[0] in ('ss', 'sc', 'se'):
                         got = await f.seek(op[1], {'ss': 0, 'sc': 1, 'se': 2}[op[0]])
                     else:
@@ -1175,8 +1466,8 @@ async def _oracle_e2e(ctx: Ctx, rng: Any, scratch: str, hist: Hist, res: OracleR
         if counts[sig] <= 3:
             fails.append(Failure(sig, what, replay))
 
-    specs: List[Dict[str, Any]] = []
-    ops = ['get', 'put', 'copy', 'read', 'write', 'read_parallel']
+    specs: List[Dict[str, Any]] = list(E2E_CORPUS)
+    ops = ['get', 'put', 'copy', 'read', 'write', 'read_parallel', 'read_all']
     n = ctx.n(180, 1500)
     for i in range(n):
         B = rng.choice(BLOCKS)
@@ -1186,10 +1477,19 @@ async def _oracle_e2e(ctx: Ctx, rng: Any, scratch: str, hist: Hist, res: OracleR
         if B <= 2:
             size = min(size, 700)
         op = ops[i % len(ops)]
-        fault = rng.choice(['none', 'none', 'none', 'read', 'write', 'lie', 'truncate'])
+        fault = rng.choice(['none', 'none', 'none', 'read', 'write', 'lie', 'truncate', 'write-eof', 'fsize',
+                            'size-none', 'size-zero'])
+        if fault in ('write-eof', 'fsize') and (op not in ('put', 'copy', 'write') or size == 0):
+            fault = 'none'
+        if fault in ('size-none', 'size-zero') and op not in ('get', 'copy', 'read_all'):
+            fault = 'none'
+        if op == 'read_all' and rng.random() < 0.3:
+            B = rng.choice([-1, 0, 16384, 1 << 20])          # also the single-request region of read()
+        hidden = fault in ('size-none', 'size-zero')         # (a position past the announced end makes read() raise)
         specs.append(dict(op=op, B=B, M=M, size=size, seed=rng.randrange(1 << 30), fault=fault,
                           sparse=rng.random() < 0.3, remote_copy=rng.random() < 0.5,
-                          off=rng.choice([0, 0, 1, B, 2 * B + 1]) if op in ('read', 'write', 'read_parallel') else 0,
+                          off=(rng.choice([0, 0, 1, B, 2 * B + 1]) if op in ('read', 'write', 'read_parallel') else
+                               min(size, rng.choice([0, 0, 1, size // 2])) if (op == 'read_all' and not hidden) else 0),
                           ooo=rng.random() < 0.8))
     # default block size / max_requests (the entry points' own defaults)
     specs.append(dict(op='get', B=-1, M=-1, size=300000, seed=1, fault='none', sparse=False, remote_copy=True, off=0, ooo=True))
@@ -1247,10 +1547,13 @@ async def run_e2e_spec(sp: Dict[str, Any], d: str) -> Dict[str, Any]:
     os.makedirs(d, exist_ok=True)
     src = content(r, sp['size']) if 'extents' not in sp else b''
     fault = sp['fault']
-    beh = Behaviour(r, ooo=sp['ooo'], pshort=0.0 if (sp['op'] == 'copy' and sp['remote_copy']) else 0.4,
+    beh = Behaviour(r, ooo=sp['ooo'], pshort=0.0 if (sp['op'] == 'copy' and sp['remote_copy']) else sp.get('pshort', 0.4),
                     fail_read=r.randint(1, 4) if fault == 'read' else None,
                     fail_write=r.randint(1, 4) if fault == 'write' else None,
-                    lie_size=r.choice([1, sp['B'] if sp['B'] > 0 else 5, 100]) if fault == 'lie' else 0)
+                    lie_size=r.choice([1, sp['B'] if sp['B'] > 0 else 5, 100]) if fault == 'lie' else 0,
+                    eof_write=sp.get('nth', r.randint(1, 4)) if fault == 'write-eof' else None,
+                    fsize_limit=sp.get('limit', r.randint(0, max(0, sp['size'] - 1))) if fault == 'fsize' else None,
+                    hide_size=fault[5:] if fault in ('size-none', 'size-zero') else None)
     truncate_to = None
     if fault == 'truncate' and sp['op'] in ('get', 'put') and sp['size'] > 2:
         truncate_to = r.randint(0, sp['size'] - 1)
@@ -1258,9 +1561,13 @@ async def run_e2e_spec(sp: Dict[str, Any], d: str) -> Dict[str, Any]:
     extents = None
     if 'extents' in sp:
         extents = [(o, bytes(((o + j) % 255) + 1 for j in range(l))) for o, l in sp['extents']]
+    texts = None
+    if sp['op'] == 'write_text':
+        texts = [t * sp.get('repeat', 1) for t in sp['texts']]
+        src = b''.join(t.encode(sp.get('encoding') or 'utf-8') for t in texts)
     out = await e2e(sp['op'], d, src, sp['B'], sp['M'], beh, sparse=sp['sparse'], remote_copy=sp['remote_copy'],
                     extents=extents, length=sp['size'] if extents is not None else None, truncate_to=truncate_to,
-                    off=sp['off'], size=sp['size'], file0=file0)
+                    off=sp['off'], size=sp['size'], file0=file0, texts=texts, encoding=sp.get('encoding'))
     out['beh'] = beh
     out['file0'] = file0
     out['truncate_to'] = truncate_to
@@ -1279,8 +1586,24 @@ def check_e2e(sp: Dict[str, Any], out: Dict[str, Any]) -> Optional[Tuple[str, st
     short_source = (beh.lie_size > 0 and op in ('get', 'copy')) or out.get('truncate_to') is not None
     if oc == 'ok':
         dst = out.get('dst')
+        if beh.short_write is not None and op in ('put', 'copy', 'write'):
+            o_, n_, a_ = beh.short_write
+            return (SIG_SHORT_WRITE,
+                    f'the destination cannot grow past {beh.fsize_limit} bytes: the server\'s write() of the {n_}-byte block '
+                    f'at offset {o_} wrote {a_} bytes, the server answered FX_OK and {op} returned normally with a '
+                    f'{len(dst or b"")}-byte destination for {len(src)} source bytes')
+        if beh.eof_write is not None and beh.faulted and op in ('put', 'copy', 'write'):
+            return (SIG_EOF_ON_WRITE,
+                    f'WRITE #{beh.eof_write} was answered with an FX_EOF status but {op} returned normally with a '
+                    f'{len(dst or b"")}-byte destination for {len(src)} source bytes')
         if beh.faulted:
             return (f'error-swallowed:{op}', f'a block failed on the server but {op} returned normally')
+        if beh.hide_size and op in ('get', 'copy', 'read_all') and src and not dst:
+            return (SIG_NO_SIZE_READ if op == 'read_all' else SIG_NO_SIZE_COPY,
+                    f'the attributes of the {len(src)}-byte source carry '
+                    + ('no size' if beh.hide_size == 'none' else 'size 0')
+                    + (f'; read() returned {len(dst or b"")} bytes' if op == 'read_all' else
+                       f'; {"sparse" if sp["sparse"] else "non-sparse"} {op} returned normally with an empty destination'))
         if 'extents' in sp:
             sig = classify_sparse(src, dst, out.get('ranges', []))
             if sig:
@@ -1300,6 +1623,13 @@ def check_e2e(sp: Dict[str, Any], out: Dict[str, Any]) -> Optional[Tuple[str, st
                             f'normally with {len(dst or b"")} bytes')
             return None
         exp = expected_e2e(op, src, sp['off'], sp['size'], out['file0'])
+        if op == 'write_text' and (dst != exp or 'tell_mismatch' in out):
+            return (SIG_TEXT_POS,
+                    f'{len(sp["texts"])} consecutive write(str) calls on a file opened with encoding='
+                    f'{sp.get("encoding") or "default (utf-8)"!r}, block_size={sp["B"]}: every call succeeded but the '
+                    f'file holds {len(dst or b"")} bytes instead of the {len(exp)} bytes of the encoded strings'
+                    + (f'; tell() gave {out["tell_mismatch"][0]} after {out["tell_mismatch"][1]} bytes were written'
+                       if 'tell_mismatch' in out else ''))
         if sp['sparse'] and beh.lie_size and op in ('get', 'copy') and dst == src + b'\0' * beh.lie_size:
             return None       # sparse: no check of the announced size; zero-extended to it is consistent
         if op == 'read' and 0 <= sp['size'] <= (sp['B'] if sp['B'] > 0 else 1 << 22):
@@ -1310,6 +1640,18 @@ def check_e2e(sp: Dict[str, Any], out: Dict[str, Any]) -> Optional[Tuple[str, st
             if op == 'get' or not sp['remote_copy']:
                 return (f'short-source-not-reported:{op}',
                         f'source is {len(src)} bytes but announced {len(src) + beh.lie_size}; non-sparse {op} returned normally')
+            return (SIG_REMOTE_COPY_SHORT,
+                    f'source is {len(src)} bytes but announced {len(src) + beh.lie_size}; non-sparse copy() on one '
+                    f'connection (copy-data on the server) returned normally: the remote-copy branch has no size check')
+        if op == 'read_all' and sp['B'] != 0 and dst != exp:
+            return (SIG_READ_TO_END,
+                    f'read() of the last {len(exp)} bytes of the file (block_size={sp["B"]}) returned normally with '
+                    f'{len(dst or b"")} bytes: the server answered the single READ request short and the reply was '
+                    f'taken as final')
+        if op == 'read_all' and sp['B'] == 0:
+            # block_size=0: documented as one request per call; POSIX semantics as for read(n)
+            if dst is not None and exp.startswith(dst) and (dst or not exp):
+                return None
         if dst != exp:
             n = min(len(dst or b''), len(exp))
             i = next((j for j in range(n) if (dst or b'')[j] != exp[j]), n)
@@ -1344,8 +1686,13 @@ def replay(ctx: Ctx, rep: Dict[str, Any]) -> List[Failure]:
     if r.get('kind') == 'fobj':
         ops = [tuple([o[0]] + [bytes.fromhex(x) if (o[0] == 'w' and i == 0) else x for i, x in enumerate(o[1:])])
                for o in r['ops']]
-        bad = check_fobj_posix(os.path.join(ctx.tmpdir(), 'pf'), r['appending'], r['block_size'],
-                               bytes.fromhex(r['content']), ops)
+        path = os.path.join(ctx.tmpdir(), 'pf')
+        bad = check_fobj_posix(path, r['appending'], r['block_size'], bytes.fromhex(r['content']), ops,
+                               encoding=r.get('encoding'))
+        if bad and r.get('encoding') and check_fobj_posix(
+                path, r['appending'], r['block_size'], bytes.fromhex(r['content']),
+                [o[:3] if o[0] == 'w' else o for o in ops]) is None:
+            return [Failure(SIG_TEXT_POS, bad[1], r)]
         return [Failure('fileobj-position:' + bad[0], bad[1], r)] if bad else []
     if r.get('kind') == 'e2e':
         d = os.path.join(ctx.tmpdir(), 'replay')
